@@ -62,6 +62,20 @@ def run(ctx):
                             continue
                         tasks.append((rules_rounding.check_add, ('R10', '%s::%s' % (pty.name, opn), path, pty, False),
                                       dict(scales=allsc[i:i + chunk], swap=swap, negative=neg, op=opn)))
+    # b * 2^t, 2^t * b, b / 2^t for every posit b of every regime cell: the result is b's significand at another scale (rounding cells there)
+    ctx.rules.append('R10 (one symbolic operand): b * 2^t, 2^t * b, b / 2^t per regime cell of b and rounding case at the result scale')
+    for pty in PTYS:
+        maxs = (pty.bits - 2) << pty.es
+        tsel = {8: [-5, -2, -1, 0, 1, 3, 6], 16: [-27, -13, -6, -1, 0, 1, 2, 7, 14, 26], 32: [-119, -60, -17, -4, -1, 0, 1, 3, 8, 33, 90, 118]}[pty.bits]
+        if ctx.tier == 'thorough':
+            tsel = list(range(-maxs, maxs, 1 if pty.bits < 32 else 3))
+        for opn, orders in (('mul', ('bc', 'cb')), ('div', ('bc',))):
+            path = prog.inherent(pty.tykey, opn)
+            if not path:
+                continue
+            for order in orders:
+                for t_ in tsel:
+                    tasks.append((rules_rounding.check_mul_pow2, ('R10', '%s::%s' % (pty.name, opn), path, pty, opn, order, False, [t_]), {}))
     st = rules_rounding.run_parallel(ctx, prog, tasks)
     ctx.count('one_symbolic_operand_cells', st['cells'])
     ctx.count('one_symbolic_operand_cells_proved', st['proved'])
